@@ -196,6 +196,19 @@ func init() {
 		return nil
 	})
 	reg(vxPkg+"Distinct", nop)
+	reg(vxPkg+"String", func(in *Interp, c *Frame, fn *ssa.Function, a []Value) Value {
+		name := in.concreteStr(a[0])
+		n := in.concreteInt(a[1], "vx.String length")
+		bs := make([]*Term, n)
+		for i := range bs {
+			bs[i] = in.newInput(fmt.Sprintf("%s[%d]", name, i), 8)
+		}
+		return in.mkStr(bs)
+	})
+	reg(vxPkg+"CollisionFree", func(in *Interp, c *Frame, fn *ssa.Function, a []Value) Value {
+		in.assume(in.collisionFreeAxioms())
+		return nil
+	})
 	reg(vxPkg+"Thorough", func(in *Interp, c *Frame, fn *ssa.Function, a []Value) Value {
 		return in.st.Bool(in.cfg.Tier == "thorough")
 	})
